@@ -20,7 +20,7 @@ def run_conc(binp, what, seed, tier, tag, race=False, owner=""):
     out_all = ""
     rc_all = 0
     if fams:
-        rc, out = sh("%s -seed %d -tier %s -what %s%s" % (binp, seed, tier, ",".join(fams), (" -owner " + owner) if owner else ""), timeout=1500, cwd=WD)
+        rc, out = sh("%s -seed %d -tier %s -what %s%s" % (binp, seed, tier, ",".join(fams), (" -owner " + owner) if owner else ""), timeout=(1500 if tier == "quick" else 5400), cwd=WD)
         out_all += out
         rc_all = rc
     if "limit" in what.split(","):
